@@ -154,9 +154,12 @@ def project_sig(res, variant, wform="blind", sform="pinned"):
     polled = {}
     zlist, zcanc, fwds = [], None, []
     evs = ordered(res)
-    deferred = False
     for pos, (kind, s, ev) in enumerate(evs):
         th = ev[0]
+        if th == "Z" and len(ev) > 1 and ev[1] == "cancelled":
+            # the deferred cancellation takes effect: the signals thread has come back to sigwait
+            L.append("ev Z die")
+            continue
         if th.startswith("W") and len(ev) > 1 and ev[1] in ("poll", "read"):
             polled[th] = True
         if th == "Z":
@@ -181,12 +184,11 @@ def project_sig(res, variant, wform="blind", sform="pinned"):
             L.append("st %s %s %s %s %s" % (s["tc"], keep_names(s["R"]), keep_names(s["P"]), keep_names(s["X"]),
                                             s.get("ts", "-")))
         L.append("ev " + " ".join(fe))
-        if fe == ["D", "cancelS"] and cancel_deferred(evs, pos):
-            # pthread_cancel is deferred: the signals thread is in the middle of a handler and runs on until it comes back
-            # to sigwait.  The model lets the cancellation take effect at once (stated assumption), so the rest of
-            # this run is outside its domain: the trace is validated up to here; the spec monitors judge all of it.
-            deferred = True
-            break
+        if fe == ["D", "cancelS"] and not cancel_deferred(evs, pos):
+            # pthread_cancel is deferred.  The signals thread is in sigwait (a cancellation point): it ends at once.
+            # Otherwise it is in the middle of a handler and runs on until it comes back to sigwait (`Z cancelled`);
+            # the model has both (St.scan, SAct.die) and the whole tail is validated against it
+            L.append("ev Z die")
         if fe[0].startswith("W"):
             st = stage.get(fe[0])
             if fe[1] == "connectEnd" and fe[2] == "1":
@@ -209,9 +211,6 @@ def project_sig(res, variant, wform="blind", sform="pinned"):
                 L.append("obs canc %s" % ("?" if zcanc is None else zcanc))
             elif fe[1] == "fwd":
                 fwds.append(fe[2])
-    if deferred:
-        L.append("end other")
-        return L
     L.append("obs fwds " + (",".join(fwds) or "-"))
     status = m.get("status", "crash")
     if status == "deadlock" and res.get("last_S"):
